@@ -43,10 +43,26 @@ def run(run):
             # helper predicates whose name and parameter kind several rules of the ruleset share (each with a body of
             # its own), and rules that call such a helper without declaring it
             shared = (rng.choice(kinds), rng.choice(["isTarget", "helper", "p"])) if case % 2 == 1 or rng.random() < 0.5 else None
+            if case < 2:
+                nrules = max(nrules, 4)
             for i in range(nrules):
                 sub = os.path.join(*[rng.choice(["a", "b", "c"]) for _ in range(rng.randint(1, 2))]) if rng.random() < 0.5 else ""
                 rel = os.path.join(sub, "r%02d_%s.cql" % (i, rng.choice(["x", "y", "z"])))
                 bad = rng.random() < 0.3
+                if case < 2 and i < 2:
+                    # always: an empty and a blanks-only rule file that come first in their directory (the top directory in
+                    # one ruleset, a sub-directory in the other), with rules after them
+                    sub = "" if case == 0 else "a"
+                    rel = os.path.join(sub, "r%02d_%s.cql" % (i, "x"))
+                    text = ["", "   \n\t\n"][i]
+                    rules.append((rel, text, {}, None))
+                    p = os.path.join(rdir, rel)
+                    os.makedirs(os.path.dirname(p), exist_ok=True)
+                    open(p, "wb").write(text.encode("utf-8"))
+                    continue
+                if case < 2 and i == 2:
+                    sub, bad = ("" if case == 0 else "a"), False
+                    rel = os.path.join(sub, "r%02d_%s.cql" % (i, "y"))
                 if bad and rng.random() < 0.35:
                     # a rule file with nothing in it (an empty placeholder, blanks only, a header without a query)
                     text = rng.choice(["", "\n", "   \n\t\n", "/**\n * @id empty/header-only\n */\n"])
